@@ -158,4 +158,68 @@ def specDispatch : RVariant → Disp
   | .unmock => .contUnmock
   | .applyDefaultImpl => .contDefault
 
+/-! ### the error path: `Unimock::induce_panic`, `Continuation::report` -/
+
+inductive EStep | formatMsg | record | panicMsg | panicOther deriving Repr, DecidableEq
+
+/-- runs the statement list of `induce_panic`: `some (recorded before the panic?, the panic carries the error's own text?)`,
+    `none` if the list ends without panicking -/
+def runE : List EStep → Bool → Bool → Option (Bool × Bool)
+  | [], _, _ => none
+  | .formatMsg :: r, _, rec => runE r true rec
+  | .record :: r, f, _ => runE r f true
+  | .panicMsg :: _, f, rec => some (rec, f)
+  | .panicOther :: _, _, rec => some (rec, false)
+
+inductive RCont | answer | unmock | callDefault deriving Repr, DecidableEq
+inductive EKind | notAnswered | cannotUnmock | noDefaultImpl | other deriving Repr, DecidableEq
+
+def specReportError : RCont → EKind
+  | .answer => .notAnswered
+  | .unmock => .cannotUnmock
+  | .callDefault => .noDefaultImpl
+
+/-! ### helper cell; `Sink::push` of the assembler -/
+
+inductive CellUse
+  /-- `get_or_init(|| Box::new(DefaultImplDelegator::__from_unimock(self.clone())))`: an existing helper is reused, a new one is a clone -/
+  | getOrInitClone
+  | other
+  deriving Repr, DecidableEq
+
+inductive PStep
+  | errIfOutputError | newPattern | onEntry | ok
+  | errIfModeDiffers | appendPattern | insertMocker
+  deriving Repr, DecidableEq
+
+inductive PResult | errOutput | errMode | appended | inserted | fellThrough deriving Repr, DecidableEq
+
+/-- what `push` observes: the builder carries an output error; a mocker for the method exists; its mode differs -/
+structure PObs where
+  outputError : Bool
+  exists_ : Bool
+  modeDiffers : Bool
+  deriving Repr, DecidableEq
+
+/-- runs `push`: the result, and whether `new_call_pattern` ran (slots were allocated) before it -/
+def runP (occupied vacant : List PStep) : List PStep → PObs → Bool → Option PResult → PResult × Bool
+  | [], _, np, r => (r.getD .fellThrough, np)
+  | .errIfOutputError :: rest, o, np, r => if o.outputError then (.errOutput, np) else runP occupied vacant rest o np r
+  | .newPattern :: rest, o, _, r => runP occupied vacant rest o true r
+  | .onEntry :: rest, o, np, r =>
+    let arm := if o.exists_ then occupied else vacant
+    -- the arm is a straight line of at most two steps
+    match arm with
+    | [.errIfModeDiffers, .appendPattern] => if o.modeDiffers then (.errMode, np) else runP occupied vacant rest o np (some (if np then .appended else .fellThrough))
+    | [.appendPattern] => runP occupied vacant rest o np (some (if np then .appended else .fellThrough))
+    | [.insertMocker] => runP occupied vacant rest o np (some (if np then .inserted else .fellThrough))
+    | _ => (.fellThrough, np)
+  | .ok :: _, _, np, r => (r.getD .fellThrough, np)
+  | _ :: _, _, np, _ => (.fellThrough, np)
+
+def specPush (o : PObs) : PResult × Bool :=
+  if o.outputError then (.errOutput, false)
+  else if o.exists_ then (if o.modeDiffers then (.errMode, true) else (.appended, true))
+  else (.inserted, true)
+
 end Unimock.Gates
